@@ -118,9 +118,10 @@ Definition eu_run (labels : Z -> option Z) (env : eu_env) (i : instr) (pc : Z) (
           g <- get_all (e_l1d env) (map fst (MemoryChanges exe)) [] ;;
           match g with
           | (d2, Some _) =>
-              match sort_changes (MemoryChanges exe) with
+              let ch := sort_changes (MemoryChanges exe) in
+              match ch with
               | [] => Panic
-              | (a0, _) :: _ as ch => d3 <- write d2 a0 (map snd ch) ;; Ok (d3, true)
+              | (a0, _) :: _ => d3 <- write d2 a0 (map snd ch) ;; Ok (d3, true)
               end
           | (d2, None) => Ok (d2, false)
           end
